@@ -742,7 +742,8 @@ class Hypergraph:
             return
         try:
             first_elem = list(first_edge)[0]
-        except TypeError:
+        except (TypeError, IndexError):
+            # an empty first edge can only be a plain (format 1) edge
             first_elem = None
 
         format1, format2, format3, format4 = False, False, False, False
